@@ -527,14 +527,14 @@ Qed.
 
 Example ops_ok_nonvacuous :
   (* frames that grow, shrink, become empty and exceed the page; ellipsis; prints and a log *)
-  let c := mkCfg false false OEllipsis 12 3 None None true false false false false false in
+  let c := mkCfg false false OEllipsis 12 3 None None true false false false false false false false in
   ops_ok c (st0 c (w_lines 2))
     [Print (w_lines 1); Start; Refresh; Print (w_lines 4); Update (w_lines 7) true; Log (w_lines 1);
      Update [] false; Print (w_lines 1); Update (w_lines 1) true; Start; Stop; Print (w_lines 1)] = true.
 Proof. vm_compute. reflexivity. Qed.
 
 Example ops_ok_nonvacuous_progress :
-  let c := mkCfg true true OEllipsis 12 4 None None true false false false false false in
+  let c := mkCfg true true OEllipsis 12 4 None None true false false false false false false false in
   ops_ok c (st0 c (w_lines 2))
     [Start; Print (w_lines 5); Update (w_lines 3) true; Update [] true; Log (w_lines 1); Stop] = true.
 Proof. vm_compute. reflexivity. Qed.
